@@ -204,12 +204,17 @@ def run_sub(ctx, sub, strategy, case_fn, max_examples, known_match=None, shrink_
         st.failures.append({"sub": sub, "message": msg, "signature": sig, "spec": spec})
 
 
+def out_dir():
+    """where evidence and new replay files go: /verif, unless VERIF_OUT redirects (sensitivity runs against scratch copies)"""
+    return os.environ.get("VERIF_OUT") or VERIF
+
+
 def write_replay(pid, failure):
-    d = os.path.join(VERIF, "replays", pid)
+    d = os.path.join(out_dir(), "replays", pid)
     os.makedirs(d, exist_ok=True)
     body = {"property": pid, "sub": failure["sub"], "message": failure["message"], "signature": failure["signature"], "spec": failure["spec"]}
     h = spec_hash({"sub": failure["sub"], "spec": failure["spec"]})
     p = os.path.join(d, "fail_%s.json" % h)
     with open(p, "w") as fh:
         json.dump(body, fh, indent=1, sort_keys=True, default=str)
-    return os.path.relpath(p, VERIF)
+    return os.path.relpath(p, out_dir()) if out_dir() == VERIF else p
